@@ -157,7 +157,9 @@ class Parallel(Connection):
         if shorted.all():
             return complex(0, 0) * f
         elif num_open_paths == len(self._elements):
-            raise InfiniteImpedance()
+            # All paths are open, which means that this connection is itself
+            # an open path (e.g., in another parallel connection).
+            return full(f.shape, complex(float("inf"), 0.0), dtype=ComplexImpedance)
 
         results: ComplexImpedances = zeros(f.shape, dtype=ComplexImpedance)
 
